@@ -317,6 +317,67 @@ def e2e_run(seed):
         tap.remove()
 
 
+def relogin_run(seed):
+    """One control connection, two accounts with different user-level limits: log in as the first, transfer, log in as the
+    second (USER again on the same connection), transfer again.  The second transfer is governed by the second account's limits
+    - and by nothing at all if that account has none."""
+    rng = random.Random(seed)
+    direction = rng.choice(["up", "down"])
+    size = rng.choice([24, 40, 64])
+    key = "read_speed_limit" if direction == "up" else "write_speed_limit"
+
+    def limits():
+        k = {}
+        if rng.random() < 0.6:
+            k[key] = rng.choice([16, 32, 64])
+        if rng.random() < 0.4:
+            k[key + "_per_connection"] = rng.choice([16, 32, 64])
+        return k
+    la, lb = limits(), limits()
+    if rng.random() < 0.35:
+        lb = {}
+    users = [{"id": "u1", "login": "u1", "pw": "", "max": 0, "perms": [], "home": [], "base": ["A"], "kwargs": la},
+             {"id": "u2", "login": "u2", "pw": "", "max": 0, "perms": [], "home": [], "base": ["A"], "kwargs": lb}]
+    cfg = gen.std_cfg(ns=2, users=users, block=8)
+    tree = {"d": [["A"]], "f": [{"p": ["A", "f"], "c": [5] * size}]}
+    tap = Tap()
+    tap.slack = 64
+    tap.install()
+    mark = {}
+    try:
+        async def xfer(c, name):
+            if direction == "up":
+                async with c.upload_stream(name) as st:
+                    for k in range(0, size, 8):
+                        await st.write(bytes([7] * min(8, size - k)))
+            else:
+                async with c.download_stream("f") as st:
+                    while await st.read(8):
+                        pass
+
+        async def sc(factory, w):
+            c = factory()
+            await c.connect("127.0.0.1", W.CTL_PORT)
+            await c.login("u1", "x")
+            await xfer(c, "up1")
+            await c.login("u2", "x")
+            mark["t1"] = common._now()
+            await xfer(c, "up2")
+            mark["t2"] = common._now()
+            await c.quit()
+        out = clientdrv.run_clients(cfg, tree, {1: sc})
+        if out["crash"] or out["exc"] or out["hang"]:
+            return None, 0, {"error": out["crash"] or repr(out["exc"]) or out["hang"]}
+        dur2 = mark["t2"] - mark["t1"]
+        bounds = [{"level": "relogin:" + k, "tpb": TICK // v, "bytes": size, "streams": 1, "block": 8, "dur": int(round(dur2 * TICK))} for k, v in lb.items()]
+        info = {"limits": {"first": la, "second": lb}, "direction": direction, "clients": 1, "size": size, "duration": dur2, "churn": "relogin",
+                # (a wait begun under the first account's limiter may still end in the second phase: no "costs nothing" claim here)
+                "any_limit": True, "bounds": bounds}
+        return tap.export(), tap.inexact, info
+    finally:
+        tap.remove()
+
+
 def validate(chk, traces, label):
     """Batch trace validation against TraceThrottle; returns list of (index, matched, length) of rejected traces."""
     bad = []
@@ -369,6 +430,7 @@ def run(tier, seed):
                           {"family": label, "seed": owner[idx]})
     # end to end
     outs = P.map(e2e_run, [base + 7 + i for i in range(n_e2e)], chunksize=4)
+    outs += P.map(relogin_run, [base + 900007 + i for i in range(n_e2e // 2)], chunksize=4)
     traces, owner = [], []
     for i, (trs, inexact, info) in enumerate(outs):
         chk.cov["evaluations"] += 1
@@ -393,7 +455,8 @@ def run(tier, seed):
                        "recorded while (a) a single throttle is driven through seeded chunk sizes, I/O durations, idle gaps around the "
                        "reset period, limit changes and clones, (b) 1-3 ThrottleStreamIO streams share one throttle and own others, "
                        "(c) the real client and server transfer files with limits at random subsets of the five levels, 1-3 "
-                       "connections, both directions; each stream of events must be a behaviour of Throttle.tla (a wait ends exactly "
+                       "connections, both directions, sessions of the user coming and going, a second account with other limits taking over the "
+                       "control connection; each stream of events must be a behaviour of Throttle.tla (a wait ends exactly "
                        "when the accounting allows, never later; no wait without a limit) and satisfy RateBound in every state; "
                        "unlimited transfers must take zero virtual time; distinct = seeds")
     chk.cov["distinct_nontrivial"] = n_api + n_stream + n_e2e
